@@ -183,7 +183,7 @@ func Ref(neutral, prefix string) string {
 			if close < 0 {
 				panic("render: bad GENP parameter list")
 			}
-			ty := strings.ReplaceAll(s[i+5:end-1], "ITER[", "ref.Iter[")
+			ty := strings.ReplaceAll(strings.ReplaceAll(s[i+5:end-1], "ITER[", "ref.Iter["), "§", prefix)
 			params := strings.ReplaceAll(strings.ReplaceAll(s[end+1:end+close], "ITER[", "ref.Iter["), "§", prefix)
 			genpArgs = append(genpArgs, paramNames(params))
 			b.WriteString("{ return ref.New(func(ʏ *ref.Y[" + ty + "]) { func(" + params + ") {")
@@ -198,7 +198,7 @@ func Ref(neutral, prefix string) string {
 			if end < 0 || end >= len(s) || s[end] != '{' {
 				panic("render: bad GEN marker")
 			}
-			ty := strings.ReplaceAll(s[i+4:end-1], "ITER[", "ref.Iter[")
+			ty := strings.ReplaceAll(strings.ReplaceAll(s[i+4:end-1], "ITER[", "ref.Iter["), "§", prefix)
 			b.WriteString("{ return ref.New(func(ʏ *ref.Y[" + ty + "]) {")
 			i = end + 1
 		case strings.HasPrefix(s[i:], "}GEN"):
